@@ -1,4 +1,5 @@
 """C13 — Cancelling a task affects only that task."""
+import json
 from .. import poolcases
 
 ID = "C13"
@@ -51,8 +52,27 @@ def extra(tier, rng, build_cache, known):
         else:
             viol.append({"case": cases[0], "obs": res[cases[0]["id"]], "tags": ["signal_hits_current_coroutine"],
                          "note": "a cancel aimed at a parked task cancelled the task that was running when the signal arrived"})
+    # a REPEATED cancel of a task that was cancelled while suspended (a legal no-op), issued while an
+    # unrelated task runs on the same thread: the bystander must finish
+    rc = [{"id": 100 + i, "clock": "0", "pools": [], "origin": "extra", "kind": "repeat_cancel",
+           "ops": [{"op": "repeat_cancel"}]} for i in range(2 if tier == "quick" else 6)]
+    rres = core.run_harness(build_cache[key], AREA, rc, isolate=True, timeout_ms=40000, jobs=2)
+    rconcl, rok = 0, 0
+    for c in rc:
+        r = rres[c["id"]]
+        v = r[0].get("repeat_cancel") if r and isinstance(r[0], dict) else None
+        if not v or not v.get("target_parked") or not v.get("bystander_started"):
+            continue
+        rconcl += 1
+        if v.get("bystander_finished") and not v.get("target_finished"):
+            rok += 1
+        else:
+            viol.append({"case": c, "obs": r, "tags": ["repeat_cancel_hits_bystander"],
+                         "note": "a second cancel of an already cancelled (suspended) task interrupted the task running on "
+                                 "the thread, or the cancelled task ran on: %s" % json.dumps(v)})
     return {"info": {"forced_cancel_runs": len(cases), "forced_cancel_conclusive": conclusive,
-                     "forced_cancel_bystander_cancelled": reproduced}, "violations": viol, "known_reproduced": found}
+                     "forced_cancel_bystander_cancelled": reproduced, "repeat_cancel_conclusive": rconcl,
+                     "repeat_cancel_bystander_finished": rok}, "violations": viol, "known_reproduced": found}
 
 
 PINNED = ['C13_running_cancel_hits_target', 'C13_refuted_signal_hits_current_coroutine', 'C13_single_pool', 'C13_single_pool_no_bystander']
